@@ -190,6 +190,8 @@ func kindOfPath(p string) string {
 }
 
 func runC14(k int, rng *Rng) CaseResult {
+	richShapes = true
+	defer func() { richShapes = false }()
 	cfg := genConfig(rng, GenOpts{NoUnique: true, CaseBias: 0.1})
 	cfg.Cache = rng.P(0.6)
 	clockNewCase(clockModeFor(cfg))
